@@ -201,8 +201,8 @@ func (r *Report) Violate(idx int, kind, key, detail string, replay any) {
 	k := kind + "|" + key
 	r.ViolCount[k]++
 	if r.ViolCount[k] <= 3 {
-		if len(detail) > 6000 {
-			detail = detail[:6000] + "…"
+		if len(detail) > 50000 {
+			detail = detail[:50000] + "…"
 		}
 		r.Violations = append(r.Violations, Violation{Kind: kind, Key: key, Detail: detail, Case: idx, Replay: replay})
 	}
